@@ -6,6 +6,7 @@ import (
 	"os"
 	"runtime"
 	"strconv"
+	"strings"
 	"testing"
 	"time"
 
@@ -54,6 +55,7 @@ type WorkerOut struct {
 	Samples     []json.RawMessage `json:"samples"`
 	WallS       float64           `json:"wall_s"`
 	Exhaustive  bool              `json:"exhaustive"`
+	Digests     []string          `json:"digests,omitempty"`
 }
 
 type WorkerViolation struct {
@@ -115,6 +117,7 @@ func TestWorker(t *testing.T) {
 		replayDir = "/verif/replays"
 	}
 	enumerate := os.Getenv("VERIF_ENUM") == "1"
+	digest := os.Getenv("VERIF_DIGEST") == "1"
 	start := time.Now()
 	out := WorkerOut{Prop: prop, Probes: map[string]int{}, Fired: map[string]int{}}
 	states := map[uint64]struct{}{}
@@ -146,7 +149,31 @@ func TestWorker(t *testing.T) {
 		if enumerate {
 			src = kernel.ZeroSource{}
 		}
+		if digest {
+			if plan.X == nil {
+				plan.X = map[string]int64{}
+			}
+			plan.X["log"] = 1
+		}
+		if dl := os.Getenv("VERIF_DUMPLOG"); dl != "" {
+			if plan.X == nil {
+				plan.X = map[string]int64{}
+			}
+			plan.X["log"] = 1
+			r := pr.Exec(t, plan, src)
+			pj, _ := json.MarshalIndent(plan, "", " ")
+			os.WriteFile(dl, []byte(string(pj)+"\n"+strings.Join(r.Log, "\n")+"\n"), 0o644)
+			continue
+		}
 		res := pr.Exec(t, plan, src)
+		if digest {
+			vs := ""
+			if res.V != nil {
+				vs = res.V.Class + "@" + strconv.Itoa(res.V.Step)
+			}
+			out.Digests = append(out.Digests, fmt.Sprintf("%d:%x:%x:%s:%s", i, hash64(res.Log...), res.SchedHash, vs, res.Infra))
+			delete(plan.X, "log")
+		}
 		out.Runs++
 		out.KSteps += int64(res.KSteps)
 		out.SimMs += res.SimMs
@@ -180,7 +207,7 @@ func TestWorker(t *testing.T) {
 			}
 			continue
 		}
-		if res.V != nil && !seenClass[res.V.Class] {
+		if res.V != nil && !seenClass[res.V.Class] && !digest {
 			seenClass[res.V.Class] = true
 			rf := ReplayFile{Property: prop, Kind: "violation", BaseSeed: base, RunIndex: i, Tier: tier, Toolchain: runtime.Version(),
 				Original: &ReplaySummary{Steps: len(plan.Steps), Faults: len(plan.Faults), Decisions: len(res.Trace), Msg: res.V.Msg}}
